@@ -105,52 +105,106 @@ def run_job(name, tier, seed, budget_s=None, procs=None, max_fail=5):
     gen = j.gen(tier, seed)
     chunk_size = getattr(j, 'chunk', 200)
     truncated = False
-    with NestablePool(procs) as pool:
-        def chunks():
-            nonlocal truncated
-            while True:
-                if budget_s is not None and time.time() - t0 > budget_s:
-                    truncated = True
-                    return
-                block = list(itertools.islice(gen, chunk_size))
-                if not block:
-                    return
-                yield (name, block)
-        for (nm, block), results in _imap_with_input(pool, chunks()):
-            for c, r in zip(block, results):
-                n_eval += 1
-                k = case_key(c)
-                if k not in seen:
-                    seen.add(k)
-                    if j.nontrivial(c):
-                        nontriv.add(k)
-                if len(samples) < 3 and j.nontrivial(c):
-                    samples.append(c)
-                if r is not None:
-                    if isinstance(r, str) and r.startswith('CHECKER-ERROR'):
-                        if len(errors) < max_fail:
-                            errors.append({'case': c, 'what': r})
-                    elif len(failures) < max_fail:
-                        failures.append({'job': name, 'case': c, 'what': r})
-            if len(failures) >= max_fail or len(errors) >= max_fail:
+    def chunks():
+        nonlocal truncated
+        while True:
+            if budget_s is not None and time.time() - t0 > budget_s:
                 truncated = True
-                break
+                return
+            block = list(itertools.islice(gen, chunk_size))
+            if not block:
+                return
+            yield (name, block)
+    chunk_timeout = float(getattr(j, 'chunk_timeout', 60 + min(900, chunk_size * int(getattr(j, 'case_timeout', 300)))))
+    for (nm, block), results in _imap_with_input(procs, chunks(), chunk_timeout):
+        for c, r in zip(block, results):
+            n_eval += 1
+            k = case_key(c)
+            if k not in seen:
+                seen.add(k)
+                if j.nontrivial(c):
+                    nontriv.add(k)
+            if len(samples) < 3 and j.nontrivial(c):
+                samples.append(c)
+            if r is not None:
+                if isinstance(r, str) and r.startswith('CHECKER-ERROR'):
+                    if len(errors) < max_fail:
+                        errors.append({'case': c, 'what': r})
+                elif len(failures) < max_fail:
+                    failures.append({'job': name, 'case': c, 'what': r})
+        if len(failures) >= max_fail or len(errors) >= max_fail:
+            truncated = True
+            break
     return {'job': name, 'evaluations': n_eval, 'distinct': len(seen), 'distinct_nontrivial': len(nontriv),
             'failures': failures, 'errors': errors, 'samples': samples, 'bound': j.bound(tier),
             'exhaustive': bool(getattr(j, 'exhaustive', False)) and not truncated,
             'truncated': truncated, 'wall_s': round(time.time() - t0, 2)}
 
 
-def _imap_with_input(pool, it, depth=64):
-    """ordered imap that also returns the input block, with bounded look-ahead"""
+def _isolated(name, case, limit):
+    """one case in a fresh interpreter (no fork of a threaded parent, single-threaded numerical libraries): what a hang
+    inside the pool is re-tried with.  A case that does not return here either is a finding (the call does not terminate)."""
+    import subprocess
+    import tempfile
+    with tempfile.NamedTemporaryFile('w', suffix='.json', delete=False) as f:
+        json.dump({'job': name, 'case': case}, f, default=str)
+        path = f.name
+    try:
+        env = dict(os.environ)
+        env['PYTHONPATH'] = os.path.dirname(os.path.dirname(os.path.abspath(__file__)))
+        p = subprocess.run([sys.executable, '-m', 'rtc.run', '--one-case', path], capture_output=True, text=True,
+                           timeout=limit, env=env, cwd=env['PYTHONPATH'])
+        for line in p.stdout.splitlines():
+            if line.startswith('ONE-CASE-RESULT '):
+                return json.loads(line[len('ONE-CASE-RESULT '):])
+        return 'CHECKER-ERROR isolated run produced no result: ' + (p.stderr or p.stdout)[-300:]
+    except subprocess.TimeoutExpired:
+        return 'the call did not return within %d s (also when run alone in a fresh process)' % limit
+    finally:
+        try:
+            os.unlink(path)
+        except OSError:
+            pass
+
+
+def _imap_with_input(procs, it, chunk_timeout, depth=64):
+    """ordered imap that also returns the input block, with bounded look-ahead.  A chunk that does not come back within
+    chunk_timeout means a worker is stuck (a deadlock after fork, or a call that does not terminate): the pool is torn
+    down, the cases of that chunk are re-run one by one in fresh interpreters, and the work goes on in a new pool."""
+    pool = NestablePool(procs)
     pending = []
-    for item in it:
-        pending.append((item, pool.apply_async(_run_chunk, (item,))))
-        if len(pending) >= depth:
-            inp, res = pending.pop(0)
-            yield inp, res.get()
-    for inp, res in pending:
-        yield inp, res.get()
+
+    def take():
+        nonlocal pool, pending
+        inp, res = pending.pop(0)
+        try:
+            return inp, res.get(timeout=chunk_timeout)
+        except multiprocessing.TimeoutError:
+            pass
+        todo = [i for i, _ in pending]
+        try:
+            pool.terminate()
+        except Exception:
+            pass
+        j = JOBS[inp[0]]
+        limit = int(getattr(j, 'case_timeout', 300))
+        out = [_isolated(inp[0], c, limit) for c in inp[1]]
+        pool = NestablePool(procs)
+        pending = [(i, pool.apply_async(_run_chunk, (i,))) for i in todo]
+        return inp, out
+    try:
+        for item in it:
+            pending.append((item, pool.apply_async(_run_chunk, (item,))))
+            if len(pending) >= depth:
+                yield take()
+        while pending:
+            yield take()
+    finally:
+        try:
+            pool.terminate()
+            pool.join()
+        except Exception:
+            pass
 
 
 def replay(path):
